@@ -241,7 +241,7 @@ class PyCodegen(Stringifier):
     def visit_Loop(self, o, **kwargs):
         """
         Format loop with explicit range as
-          for <var> in range(<start>, <end> + <incr>, <incr>):
+          for <var> in range(<start>, <end> +/- 1, <incr>):
             ...body...
         """
         var = self.visit(o.variable, **kwargs)
@@ -249,7 +249,12 @@ class PyCodegen(Stringifier):
         end = self.visit(o.bounds.stop, **kwargs)
         if o.bounds.step:
             incr = self.visit(o.bounds.step, **kwargs)
-            cntrl = f'range({start}, {end} + {incr}, {incr})'
+            # The stop value of range() is exclusive: extend it by one in the direction of the step
+            try:
+                offset = '+ 1' if int(incr) > 0 else '- 1'
+            except ValueError:
+                offset = f'+ (1 if {incr} > 0 else -1)'
+            cntrl = f'range({start}, {end} {offset}, {incr})'
         else:
             cntrl = f'range({start}, {end} + 1)'
         header = self.format_line('for ', var, ' in ', cntrl, ':')
